@@ -390,6 +390,8 @@ class C14(MsgProp):
             for L, style in ((5, "random"), (300, "zeros"), (300, "ones"), (700, "random")):
                 yield ("DEC " + hx(mk_frame(hostile_payload(r, n, L, style))), "shape-" + style, True)
         yield ("DEC " + hx(mk_frame(b"")), "empty", False)
+        for s_ in rejected_then_short(r):
+            yield ("SCAN " + hx(s_), "rejected-prefix-then-short-frame", True)
         for b in range(256):
             yield ("DEC " + hx(mk_frame(bytes([b]))), "one-byte-payload", True)
             if b % 16 == 0:
@@ -516,6 +518,13 @@ class C12(MsgProp):
             for L, ms in one_per_len:
                 for m in ms:
                     yield ("BUILDSEQ " + f + " ; " + m, "refused-inside-a-byte-then-target", True)
+        # any length relation between a frame and the next one (not only neighbours): every short target behind frames
+        # of unrelated lengths, shorter and longer, including the longest ones
+        allm = [m for L, ms in ((L, by_len[L]) for L in lens_sorted) for m in ms[:1]]
+        longest = [m for L in lens_sorted[-6:] for m in by_len[L][:1]]
+        for L, ms in one_per_len:
+            for prev in r.sample(allm, min(len(allm), 8)) + r.sample(longest, min(len(longest), 2)):
+                yield ("BUILDSEQ " + prev + " ; " + ms[0], "any-length-then-target", True)
         # a build that leaves ones behind, then a refused build (each kind of error), then an unaligned target
         targets = [m for L, m in sized][:: max(1, len(sized) // (40 if ctx.tier == "quick" else 400))]
         for t in targets:
@@ -887,6 +896,30 @@ class C17(MsgProp):
         # are the character count and the byte count (oracle on the answers of the real code)
         ops = [l.strip() for l in open(os.path.join(ctx.wdir, "ops.txt")) if l.startswith("ENC 1029 ")]
         fails = 0
+        # every 1029 frame: invalid UTF-8 in the announced text bytes, or fewer bytes than announced, must give Corrupt;
+        # valid text must give the typed message with exactly those bytes
+        decs = [l.strip() for l in open(os.path.join(ctx.wdir, "ops.txt")) if l.startswith("DEC ")]
+        for prof, exe in (("release", ctx.exe_release), ("relchk", ctx.exe_relchk)):
+            dans = ctx.run_all([exe], decs, 20.0)
+            for op, a in zip(decs, dans):
+                fr = bytes.fromhex(op.split()[1])
+                p = fr[3:-3]
+                if len(p) < 9 or ((p[0] << 4) | (p[1] >> 4)) != 1029:
+                    continue
+                nbytes = p[8]
+                txt = p[9:9 + nbytes]
+                try:
+                    txt.decode("utf-8"); valid = len(txt) == nbytes
+                except UnicodeDecodeError:
+                    valid = False
+                if not valid and a != "CORRUPT":
+                    fails += 1
+                    if len(ctx.violations) < 60:
+                        ctx.violations.append({"op": op[:600], "profile": prof, "oracle": "FAIL C17 a 1029 frame whose text is not valid UTF-8 (or is shorter than announced) decodes to " + a[:80]})
+                elif valid and not (a.startswith("MSG 1029 ") and a.endswith("b" + (txt.hex() if txt else "-"))):
+                    fails += 1
+                    if len(ctx.violations) < 60:
+                        ctx.violations.append({"op": op[:600], "profile": prof, "oracle": "FAIL C17 a 1029 frame with valid text decodes to " + a[:80]})
         for prof, exe in (("release", ctx.exe_release), ("relchk", ctx.exe_relchk)):
             ans = ctx.run_all([exe], ops, 20.0)
             for op, a in zip(ops, ans):
@@ -985,6 +1018,15 @@ class C17(MsgProp):
             body = b"ok" + bad + b"z"
             bits = int_bits(1029, 12) + int_bits(5, 12) + int_bits(1, 16) + int_bits(2, 17) + int_bits(len(body), 7) + int_bits(len(body), 8)
             yield ("DEC " + hx(mk_frame(bits_to_bytes(bits) + body)), "invalid-utf8", True)
+        # sequences of invalid fragments (each invalid on its own; a lenient decoder may accept some combinations:
+        # CESU-8 surrogate pairs, overlong forms followed by continuations, truncated lead + the missing tail)
+        frs = [b"\xed\xa0\xbd", b"\xed\xb8\x80", b"\xed\xaf\xbf", b"\xed\xbf\xbf", b"\xc0\x80", b"\xc1\xbf", b"\xe0\x80\x80",
+               b"\xf0\x80\x80\x80", b"\xf4\x90\x80\x80", b"\xe2\x82", b"\xac", b"\xf0\x9f", b"\x98\x80", b"\xff", b"\xfe", b"\x80"]
+        for a_ in frs:
+            for b_ in frs:
+                body = b"ok " + a_ + b_ + b"z"
+                bits = int_bits(1029, 12) + int_bits(5, 12) + int_bits(1, 16) + int_bits(2, 17) + int_bits(min(127, len(body)), 7) + int_bits(len(body), 8)
+                yield ("DEC " + hx(mk_frame(bits_to_bytes(bits) + body)), "utf8-fragment-pairs", True)
         for txt in ("héllo wörld", "日本語", "a" * 127, "é" * 127, "😀" * 63):
             body = txt.encode()
             bits = int_bits(1029, 12) + int_bits(5, 12) + int_bits(1, 16) + int_bits(2, 17) + int_bits(len(txt), 7) + int_bits(len(body), 8)
